@@ -3,6 +3,7 @@ package main
 import (
 	"encoding/json"
 	"fmt"
+	"math"
 	"math/big"
 
 	spg "go.1password.io/spg"
@@ -29,6 +30,12 @@ var wlTreePanel = []WLCase{
 	{Words: []string{"solo"}, Length: 4, Scheme: "random", SepKind: "preset", Preset: "SFSymbols"},
 	{Words: []string{"ab", "cd", "ef"}, Length: 3, Scheme: "random", SepKind: "constructed", sepRec: spg.CharRecipe{Length: 2, AllowChars: "+="}},
 	{Words: []string{"ǆa", "ǉb", "ok"}, Length: 2, Scheme: "one", SepKind: "char", SepChar: "語"},
+	// long passwords over tiny lists: more capitalisation coins than 16 (and, in the thorough tier, 32) bits
+	{Words: []string{"solo"}, Length: 17, Scheme: "random", SepKind: "char", SepChar: ""},
+	{Words: []string{"solo"}, Length: 18, Scheme: "random", SepKind: "char", SepChar: "-"},
+	{Words: []string{"solo"}, Length: 33, Scheme: "random", SepKind: "char", SepChar: ""},
+	{Words: []string{"solo"}, Length: 40, Scheme: "one", SepKind: "char", SepChar: ""},
+	{Words: []string{"ab", "cd"}, Length: 9, Scheme: "random", SepKind: "char", SepChar: ""},
 }
 
 func init() {
@@ -84,7 +91,7 @@ func wlTreeCaseFor(tier string, seed uint64, i int) (WLCase, explore.Limits) {
 	if tier == "thorough" {
 		budget = 250000
 	}
-	lim := explore.Limits{MaxLeaves: budget}
+	lim := explore.Limits{MaxLeaves: budget, MaxDraws: 400} // no honest wordlist generation of these sizes draws 400 times
 	if i < len(wlTreePanel) {
 		return wlTreePanel[i], lim
 	}
@@ -204,6 +211,25 @@ func wlReference(w WLCase, b *Built) (map[string]*big.Rat, bool) {
 			gapAlts[g] = alts
 		}
 	}
+	// size of the reference before it is built
+	{
+		est := 1.0
+		for i := 0; i < L; i++ {
+			est *= float64(s)
+		}
+		switch w.Scheme {
+		case "one":
+			est *= float64(L)
+		case "random":
+			est *= math.Pow(2, float64(L))
+		}
+		for _, a := range gapAlts {
+			est *= float64(len(a))
+		}
+		if est > 400000 || L > 30 {
+			return nil, false
+		}
+	}
 	// capitalisation law
 	type capAlt struct {
 		set uint32
@@ -319,7 +345,7 @@ func exploreWL(w WLCase, b *Built, lim explore.Limits, onLeaf func(GenOut, *tape
 // fresh separator function state and log.
 func (b *Built) fresh(w WLCase) *Built {
 	nb := &Built{List: b.List, Kept: b.Kept, Log: &SepLog{}}
-	rec := *b.Rec
+	rec := *b.Rec // (SeparatorChar is copied along: set as well when the case says so)
 	var inner spg.SFFunction
 	switch w.SepKind {
 	case "preset":
